@@ -11,7 +11,8 @@ from gen import corpus
 
 SYS_FLAGS = ["\\Seen", "\\Answered", "\\Flagged", "\\Deleted", "\\Draft"]
 TAME_KW = ["$Forwarded", "NonJunk", "kw1"]
-WILD_KW = ["Seen", "unseen", "replied", "flagged", "Recent", "Deleted", "cur", "a.b", "x-y", "a:b", "1", "not"]
+WILD_KW = ["a.b", "x-y", "a:b", "1", "not", "cur", "kw_2", "$MDNSent", "all", "first", "last"]  # odd but valid atoms (names that ARE MH sequence names of system flags: see ALIAS_KW)
+ALIAS_KW = ["Seen", "unseen", "replied", "flagged", "Recent", "Deleted", "Draft"]
 FLAG_KEYS = ["ALL", "SEEN", "UNSEEN", "FLAGGED", "UNFLAGGED", "DELETED", "UNDELETED", "ANSWERED", "UNANSWERED", "DRAFT", "UNDRAFT"]
 LAT_PROFILES = ["zero", "small", "bimodal", "slow", "wide"]
 BODY_ITEMS = ["(BODY[])", "(BODY.PEEK[])", "(RFC822)", "(RFC822.TEXT)", "(RFC822.HEADER)", "(UID FLAGS)", "(FLAGS BODY.PEEK[HEADER.FIELDS (X-Tok)])", "(UID BODY[TEXT])", "(ENVELOPE)", "(BODYSTRUCTURE UID)"]
